@@ -3694,7 +3694,11 @@ class SQLCompiler(Compiled):
         return text
 
     def _generate_generic_unary_operator(self, unary, opstring, **kw):
-        return opstring + unary.element._compiler_dispatch(self, **kw)
+        text = unary.element._compiler_dispatch(self, **kw)
+        if opstring == "-" and text.startswith("-"):
+            # "--" starts a comment: -(-2) rendered with literal_binds
+            text = "(%s)" % text
+        return opstring + text
 
     def _generate_generic_unary_modifier(self, unary, opstring, **kw):
         return unary.element._compiler_dispatch(self, **kw) + opstring
